@@ -60,7 +60,7 @@ class C05(core.Check):
         'org:zone-offset-0', 'org:zone-offset-last', 'org:zone-offset-past', 'org:bare-after-zone', 'org:GLOBAL-relative',
         'same-zone>=3-stretches', 'create:valid', 'create:outside-global', 'create:duplicate', 'create:inverted',
         'create:beyond-width', 'layout:global-redefined', 'layout:overlapping', 'layout:adjacent', 'layout:nested',
-        'include-from-zone', 'isa-zone:inverted', 'isa-zone:beyond-width', 'expect:ACCEPT', 'expect:REJECT']}
+        'include-from-zone', 'zone-switch-in-unselected-branch', 'isa-zone:inverted', 'isa-zone:beyond-width', 'expect:ACCEPT', 'expect:REJECT']}
 
     def build(self, rng, directed=None):
         addr_bits = rng.choice([8, 10, 12, 16])
@@ -154,6 +154,12 @@ class C05(core.Check):
                     cursor['GLOBAL'] += n
                     tags.add('include-from-zone')
                     continue
+            if rng.random() < 0.2:
+                # a zone switch inside a branch that is not compiled must not switch anything
+                z = rng.choice(sorted(zt))
+                dead = rng.choice([f'.memzone {z}', f'.org 0 "{z}"', f'.org {G[0] + 1}'])
+                main.append({'k': 'comment', 'text': rng.choice(['#if 0', '#ifdef NOT_DEFINED_ANYWHERE']) + '\n' + dead + '\n#endif'})
+                tags.add('zone-switch-in-unselected-branch')
             # a stretch of marker bytes in the current zone
             room = zt[cur][1] - cursor[cur] + 1
             groom = G[1] - cursor[cur] + 1
